@@ -125,6 +125,7 @@ var failedHeaders = []map[string][]string{
 type c20Case struct {
 	Timeout, MaxDelay, Dur time.Duration
 	FirstDur               time.Duration // duration of the first attempt when it differs from the others (0 = Dur)
+	Earlier                time.Duration // > 0: the getter value served an earlier call, this long before the judged one
 	SuccessAt              int
 	HeaderKind, BodyLen    int
 	ErrKind                int // < nErrKinds: every failure of that kind; >= nErrKinds: kinds vary per attempt
@@ -134,6 +135,9 @@ func (c c20Case) String() string {
 	first := ""
 	if c.FirstDur > 0 {
 		first = fmt.Sprintf(" firstAttemptDuration=%v", c.FirstDur)
+	}
+	if c.Earlier > 0 {
+		first += fmt.Sprintf(" getterValueUsed=%vEarlier", c.Earlier)
 	}
 	return fmt.Sprintf("timeout=%v maxRetryDelay=%v attemptDuration=%v%s successAt=%d errKind=%d", c.Timeout, c.MaxDelay, c.Dur, first, c.SuccessAt, c.ErrKind)
 }
@@ -152,6 +156,16 @@ func newScripted(c c20Case, s *gen.Stream) (*scripted, []byte) {
 	}
 	if c.BodyLen >= 0 {
 		sg.body = s.Bytes(c.BodyLen)
+		// bodies that begin or end like text a tidy-minded layer would normalise: a UTF-8 byte-order mark (once, twice,
+		// alone), leading / trailing white space, a trailing NUL - the body is returned byte for byte
+		shapes := [][2]string{{"", ""}, {"\xef\xbb\xbf", ""}, {"\xef\xbb\xbf\xef\xbb\xbf", ""}, {" \r\n\t", ""}, {"", "\r\n"}, {"", "\x00"}, {"\xff\xfe", ""}, {"\xef\xbb", ""}}
+		sh := shapes[(c.BodyLen+c.HeaderKind*3+c.ErrKind)%len(shapes)]
+		if c.BodyLen >= 8 {
+			copy(sg.body, sh[0])
+			copy(sg.body[len(sg.body)-len(sh[1]):], sh[1])
+		} else if c.BodyLen == 1 && c.ErrKind%2 == 1 {
+			sg.body = []byte("\xef\xbb\xbf") // nothing but a byte-order mark
+		}
 	}
 	var wantBody []byte
 	if sg.body != nil {
@@ -216,6 +230,16 @@ func judge(c c20Case, sg *scripted, wantBody []byte, h map[string][]string, b []
 func runCase(c c20Case, s *gen.Stream) (string, string) {
 	sg, wantBody := newScripted(c, s)
 	r := &trust.RetryHTTPSGetter{Timeout: c.Timeout, MaxRetryDelay: c.MaxDelay, Getter: sg}
+	if c.Earlier > 0 {
+		// the getter VALUE has been used before (a long-lived Options value): an earlier call that succeeded at once,
+		// then a pause; every call has its own timeout
+		warm := &scripted{successAt: 1, body: []byte("earlier answer")}
+		r.Getter = byURL{"https://example.test/earlier": warm, "https://example.test/x": sg}
+		if _, _, err, crash := safeGet(r, "https://example.test/earlier"); err != nil || crash != "" {
+			return "earlier-call-failed", fmt.Sprintf("%s: an immediate success was answered with %v %s", c, err, crash)
+		}
+		time.Sleep(c.Earlier)
+	}
 	t0 := time.Now()
 	h, b, err, crash := safeGet(r, "https://example.test/x")
 	if crash != "" {
@@ -374,6 +398,14 @@ func TestC20(t *testing.T) {
 		}
 		// a first attempt that is much slower than the later ones (a cold connection): the timeout runs from the start of
 		// the call, not from the end of the first attempt
+		switch rapid.IntRange(0, 5).Draw(t, "getterValueUsedBefore") {
+		case 0:
+			c.Earlier = time.Nanosecond
+		case 1:
+			c.Earlier = c.Timeout/2 + time.Millisecond
+		case 2:
+			c.Earlier = 2*c.Timeout + time.Second
+		}
 		switch rapid.IntRange(0, 3).Draw(t, "slowFirstAttempt") {
 		case 0:
 			c.FirstDur = c.Timeout * 9 / 10
